@@ -1604,6 +1604,69 @@ theorem overriding_duplicate_counterexample :
     ∧ overridingSubclasses exBases [1, 2, 3, 4] (fun c _ => c == 1 || c == 4) (fun _ => true) 1 0 = [4] := by
   decide
 
+/-! ### lookups made while the modules are visited (`_mro` still `None`)
+
+Full statement (false of the code, `findEarly_diamond_counterexample`): for every accepted class
+`findEarly bases ext owns c name = find bases ext owns c name`. -/
+
+/-- every class has at most one base -/
+def SingleInheritance (bases : Nat → List Nat) : Prop := ∀ d, (bases d).length ≤ 1
+
+theorem early_mro_single (bases : Nat → List Nat) (hA : Acyclic bases) (hS : SingleInheritance bases) :
+    ∀ (f g c : Nat), c < f → c < g →
+      mroFuel bases f c = some (allbasesFuel bases (fun _ => false) g c) := by
+  intro f
+  induction f with
+  | zero => intro g c h; omega
+  | succ f ih =>
+    intro g c hf hg
+    cases g with
+    | zero => omega
+    | succ g =>
+      rw [mroFuel_succ]
+      have hl := hS c
+      match hb : bases c, hl with
+      | [], _ => simp [allbasesFuel, hb]
+      | [b], _ =>
+        have hbc : b < c := hA c b (by simp [hb])
+        have hib := ih g b (by omega) (by omega)
+        have hn := mroFuel_nodup bases hA f b _ hib
+        obtain ⟨t, ht, _⟩ := mroFuel_head_tail bases hA f b _ hib
+        simp only [List.isEmpty_cons, Bool.false_eq_true, if_false, mapOpt, hib]
+        have hm : merge [allbasesFuel bases (fun _ => false) g b, [b]]
+            = some (allbasesFuel bases (fun _ => false) g b) := by
+          rw [ht]; exact merge_fast b t (ht ▸ hn)
+        simp [allbasesFuel, hb, hm]
+      | _ :: _ :: _, hl => simp at hl
+
+/-- **early_eq_mro_partial**: under single inheritance (and no unresolved bases) the order used
+during the visit is the final linearisation, so every visit-time lookup agrees with the final one.
+Excluded: multiple inheritance, where they differ as soon as a diamond is involved. -/
+theorem early_eq_mro_partial (bases : Nat → List Nat) (hA : Acyclic bases)
+    (hS : SingleInheritance bases) (c : Nat) :
+    classMroEarly bases (fun _ => false) c = classMro bases (fun _ => false) c := by
+  have h := early_mro_single bases hA hS (c + 1) (c + 1) c (by omega) (by omega)
+  have h' : mro bases c = some (allbases bases (fun _ => false) c) := h
+  have hf : ∀ l : List Nat, l.filter (fun _ => true) = l := fun l => by
+    induction l with
+    | nil => rfl
+    | cons a l ih => simp
+  simp [classMroEarly, classMro_accept bases _ c _ h', hf]
+
+theorem findEarly_eq_find_partial (bases : Nat → List Nat) (hA : Acyclic bases)
+    (hS : SingleInheritance bases) (owns : Nat → Nat → Bool) (c name : Nat) :
+    findEarly bases (fun _ => false) owns c name = find bases (fun _ => false) owns c name := by
+  simp [findEarly, find, early_eq_mro_partial bases hA hS c]
+
+/-- In the diamond 1; 2(1); 3(1); 4(2,3) with the name defined in 1 and 3, the lookup made during
+the visit (depth-first `allbases`: 4,2,1,3,1) finds 1's definition, the final linearisation and
+Python (4,2,3,1) find 3's: `class X(D.Inner)` gets the wrong base. -/
+theorem findEarly_diamond_counterexample :
+    findEarly exBases (fun _ => false) (fun c _ => c == 1 || c == 3) 4 0 = some 1
+    ∧ find exBases (fun _ => false) (fun c _ => c == 1 || c == 3) 4 0 = some 3
+    ∧ PyMro.lookup (PyMro.withObject exBases) (fun c _ => c == 1 || c == 3) 4 0 = some 3 := by
+  decide
+
 /-! ### the "inherited from" tables of a class page -/
 
 theorem mem_unmaskedAttrs (contents : Nat → List Nat) (visible : Nat → Nat → Bool) (b : Nat)
